@@ -149,6 +149,10 @@ def check(chk):
     # by coincidence of their values and the result depends on how the features happen to be ordered
     from . import c04 as _c04
     _c04._stored(_RL(chk, "SPACE.stored", "LAYOUT.stage_order"))
+    # splitting the features over list elements changes nothing: the per-element bookkeeping keyed "0", "1", ... is
+    # walked in list order (shared with C02 / C13)
+    from .common import index_key_order
+    index_key_order(chk, "LAYOUT.index_keys", ("coords_in", "transformers"))
     pm = chk.pm
     concrete = pm.concrete_models() + pm.exported_classes("preprocessing")
     cfg_cache: dict = {}
